@@ -172,8 +172,11 @@ def run(tier, seed, replay):
     chunks = [files[i::14] for i in range(14)]
 
     def go(ch):
-        return run_native("robust_harness", {"op": "prefixes", "files": ch, "seed": seed, "per_file": 30 if thorough else 12,
-                                             "edits": 8 if thorough else 3, "line_ends": thorough}, timeout=3000)
+        # quick: a fixed, seed-independent selection (every 6th token boundary, edits from seed 0);
+        # thorough: every token boundary and seeded edits
+        return run_native("robust_harness", {"op": "prefixes", "files": ch, "seed": seed if thorough else 0,
+                                             "every": 1 if thorough else 6, "edits": 12 if thorough else 3,
+                                             "line_ends": thorough}, timeout=3000)
     t0 = time.time()
     with ThreadPoolExecutor(14) as ex:
         rs = list(ex.map(go, [c for c in chunks if c]))
@@ -185,7 +188,8 @@ def run(tier, seed, replay):
     chk.add_bounded("Lexer + Registry.run (whole pipeline) with a watchdog",
                     "every token-prefix (with / without the final newline) and single-token deletion / duplication of "
                     "the sample files ends in a verdict or a CParsingError",
-                    f"{len(files)} files x {30 if thorough else 12} token prefixes x 2 + {8 if thorough else 3} edits x 2",
+                    f"{len(files)} files x every {'1st' if thorough else '6th'} token boundary x 2 (with / without final "
+                    f"newline) + {12 if thorough else 3} token edits x 2",
                     cases, list(by_site.values()), nontrivial=cases,
                     samples=[{"site": f"{k[0]}@{k[1]}"} for k in list(by_site)[:3]], time_s=time.time() - t0)
     for (exc, site), v in sorted(by_site.items(), key=lambda kv: str(kv[0])):
